@@ -40,7 +40,9 @@
       - [C13_noninterference_physical] / [C13_orphaned_type_refuted]: the same for erasure followed
         by schema.New's own registration, under the exclusion of the known finding
         orphaned-type-stays-visible, and the witness that it fails without the exclusion;
+      - [C13_chain_consumers_disciplined]: those transcribed consumers never forge a pointer;
       - [C13_erase_schema_ok]: the reduced schema is itself one that schema.New accepts;
+      - [C13_enabling_is_monotone]: erase (erase S F') F = erase S F for F ⊆ F';
       - [C13_enabling_shows_everything]: with every feature enabled nothing is deleted. *)
 From Coq Require Import String List.
 From ApiFu Require Import Base.Sexp Feat.FeaturesModel Feat.FeaturesSpec Feat.FeaturesProofs.
@@ -120,6 +122,14 @@ Theorem C13_feature_exec_eq_partial : forall S F G c,
   run fixed S F [] (chain_prog c) = run fixed (erase S F) G [] (chain_prog c).
 Proof. exact (fun S F G c => noninterference (chain_prog c) S F G). Qed.
 
+(** the transcribed consumers are programs of the disciplined kind: they never present a type
+    pointer they were not handed, on any schema (so the two instances above are never the trivial
+    equation Forged = Forged) *)
+Theorem C13_chain_consumers_disciplined : forall fx S F c,
+  (exists r, snd (run fx S F [] (chain_validate c)) = Done r) /\
+  (exists r, snd (run fx S F [] (chain_prog c)) = Done r).
+Proof. exact (fun fx S F c => conj (chain_validate_disciplined fx S F c) (chain_prog_disciplined fx S F c)). Qed.
+
 (** the reference exists: the reduced schema is accepted by schema.New *)
 Theorem C13_erase_schema_ok : forall S F, schema_ok S = true -> schema_ok (erase S F) = true.
 Proof. exact erase_schema_ok. Qed.
@@ -128,6 +138,12 @@ Proof. exact erase_schema_ok. Qed.
 Theorem C13_enabling_shows_everything : forall S G,
   schema_ok S = true -> subset (all_features S) G = true -> erase S G = S.
 Proof. exact erase_all. Qed.
+
+(** ... and enabling some features makes exactly the elements appear whose requirements have become
+    satisfied: the view with fewer features is the erasure of the view with more *)
+Theorem C13_enabling_is_monotone : forall S F F',
+  schema_ok S = true -> subset F F' = true -> erase (erase S F') F = erase S F.
+Proof. exact (fun S F F' Hok => erase_erase S F F' (ok_nodup S Hok)). Qed.
 
 (** ** erasure as a developer performs it: delete the gated elements from the SchemaDefinition and
     call schema.New again, which registers only what it still reaches ([erase_physical]).
@@ -212,7 +228,9 @@ Print Assumptions C13_noninterference_all_features.
 Print Assumptions C13_gated_never_called.
 Print Assumptions C13_feature_validate_eq_partial.
 Print Assumptions C13_feature_exec_eq_partial.
+Print Assumptions C13_chain_consumers_disciplined.
 Print Assumptions C13_erase_schema_ok.
+Print Assumptions C13_enabling_is_monotone.
 Print Assumptions C13_enabling_shows_everything.
 Print Assumptions C13_noninterference_physical.
 Print Assumptions C13_orphaned_type_refuted.
